@@ -86,4 +86,11 @@ CHECKS = {
             dict(name="regress", run="^(TestRegress.*|TestRealNATSRelease)$", shards=(1, 1)),
         ],
     ),
+    "C19": dict(
+        pkg="./c19", level="exploration",
+        runs=[
+            dict(name="scripted", run="^TestPropSendRequest$", checks=(5000, 50000), shards=(4, 16)),
+            dict(name="realnats", run="^TestRealNATS$", shards=(1, 1)),
+        ],
+    ),
 }
